@@ -47,6 +47,14 @@ GColor == { Ins("g", <<N(1)>>), Ins("G", <<N(0)>>), Ins("rg", <<N(1), N(0), N(0)
             <<N(1), N(0), N(1), Op("sc")>>, <<N(1), Op("scn")>>, <<N(0), N(1), N(1), N(0), Op("SCN")>>, <<Op("q")>>, <<Op("Q")>>,
             Painter, Ins("Tj", <<Str(A)>>) }
 
+\* colour spaces that come from the page's /ColorSpace resources: 1, 2, 3 and 4 components, initial colours 0 / 1, a space
+\* that cannot be used; sc/scn/SC/SCN with 1..4 operands under each of them
+GColorRes == { Ins("cs", <<Nm("CsI3")>>), Ins("cs", <<Nm("CsN2")>>), Ins("cs", <<Nm("CsSep")>>), Ins("cs", <<Nm("CsBad")>>),
+               Ins("cs", <<Nm("CsI4")>>), Ins("cs", <<Nm("CsI1")>>), Ins("CS", <<Nm("CsN3")>>), Ins("CS", <<Nm("CsIdx")>>),
+               Ins("CS", <<Nm("CsLab")>>), Ins("CS", <<Nm("CsN2")>>), <<N(1), Op("scn")>>, <<N(1), N(0), Op("scn")>>,
+               <<N(1), N(0), N(1), Op("sc")>>, <<N(0), N(1), N(1), N(0), Op("scn")>>, <<N(1), N(0), Op("SCN")>>,
+               <<N(0), N(1), N(0), Op("SC")>>, <<Op("q")>>, <<Op("Q")>>, Painter, Ins("Tj", <<Str(A)>>) }
+
 \* operators whose operands are missing or ill-typed, between a good prefix and probes that show any damage
 BadOps == { <<Op("Tc")>>, <<Nm("x"), Op("Tc")>>, <<N(3), Op("Td")>>, <<Nm("x"), N(1), Op("Td")>>, <<Op("Tf")>>, <<N(1), Op("Tm")>>,
             <<Op("Tj")>>, <<Op("TJ")>>, <<N(5), Op("TJ")>>, <<N(1), N(2), Op("\"")>>, <<Op("cm")>>, <<N(1), N(2), N(3), Op("cm")>>,
@@ -70,6 +78,7 @@ InitPath(L)  == InitGroup(GPath, L, <<>>, <<Op("S")>>)
 InitPaint(L) == InitGroup(GPaint, L, <<>>, <<Op("S")>>)
 InitPathCtm(L) == InitGroup(GPathCtm, L, <<>>, <<Op("B")>>)
 InitColor(L) == InitGroup(GColor, L, PreText, Painter)
+InitColorRes(L) == InitGroup(GColorRes, L, PreText, <<Str(A), Op("Tj")>> \o Painter)
 InitBad == \E b \in BadOps : Start(PreText \o GoodPre \o b \o Probe, Ident)
 \* two operators with missing / ill-typed operands, a good show operator in between and the probes after them
 InitBad2 == \E b1 \in BadOps, b2 \in BadOps : Start(PreText \o GoodPre \o b1 \o <<Str(A), Op("Tj")>> \o b2 \o Probe, Ident)
@@ -88,7 +97,7 @@ ZeroOps == { Ins("Tc", <<N(0)>>), Ins("Tw", <<N(0)>>), Ins("TL", <<N(0)>>), Ins(
 InitZero == \E z \in ZeroOps : Start(ZeroPre \o z \o Probe, Ident)
 InitZero2 == \E z1 \in ZeroOps, z2 \in ZeroOps : Start(ZeroPre \o z1 \o <<Str(A), Op("Tj")>> \o z2 \o Probe, Ident)
 
-MixPoolAll == GPos \cup GSpace \cup GState \cup GPath \cup GPathCtm \cup GColor \cup GPaint
+MixPoolAll == GPos \cup GSpace \cup GState \cup GPath \cup GPathCtm \cup GColor \cup GPaint \cup GColorRes
 NoPool == {}
 InitMixed == Start(PreText, Ident)
 
